@@ -83,6 +83,21 @@ def all_token_classes():
             mods.append(importlib.import_module(m.name))
         except Exception:  # pragma: no cover
             pass
+    # packages without __init__.py (vsg/token/psl) are invisible to walk_packages
+    known = {m.__name__ for m in mods}
+    for base in vsg.token.__path__:
+        for dp, dn, fn in os.walk(base):
+            dn[:] = sorted(d for d in dn if d != "__pycache__")
+            for f in sorted(fn):
+                if f.endswith(".py") and f != "__init__.py":
+                    rel = os.path.relpath(os.path.join(dp, f), base)[:-3].replace(os.sep, ".")
+                    name = "vsg.token." + rel
+                    if name not in known:
+                        try:
+                            mods.append(importlib.import_module(name))
+                            known.add(name)
+                        except Exception:  # pragma: no cover
+                            pass
     seen = {}
     for mod in mods:
         for name, obj in inspect.getmembers(mod, inspect.isclass):
